@@ -446,6 +446,112 @@ func parseRemainder(c *explore.Ctx) {
 }
 
 // Spec returns the C11 check.
+// retained values: what Decode handed out stays what it was while the stream goes on (the read buffer is refilled)
+var retainedKinds = []string{`"plain text"`, `"héllo wörld"`, "\"h\u00e9llo\"", `"esc\nape\t"`, `12345`, `{"k":"vé","n":[1,"日本"]}`, `["a","é",{"x":"ü"}]`, `"日本語のテキスト"`, `1.5e3`, `{"plain":"ascii only"}`}
+
+type retainedT struct {
+	K     string
+	Plain string
+	N     []any
+}
+
+func retained(c *explore.Ctx) {
+	a := retainedKinds[c.Choose(len(retainedKinds))]
+	b := retainedKinds[c.Choose(len(retainedKinds))]
+	setting := c.Choose(2)
+	chunks := [][]int{nil, {4096}, {4095, 1, 7}}[c.Choose(3)]
+	typed := c.Choose(2) == 1
+	var sb strings.Builder
+	for i := 0; sb.Len() < 70000; i++ {
+		if i%2 == 0 {
+			sb.WriteString(a)
+		} else {
+			sb.WriteString(b)
+		}
+		sb.WriteString([]string{"\n", " ", ""}[i%3])
+		if i%3 == 2 {
+			sb.WriteString(" ")
+		}
+	}
+	s := []byte(sb.String())
+	run := func(seg bool) (vals []any, err error) {
+		r := &ctlReader{data: s, chunks: chunks, term: io.EOF}
+		var decode func(any) error
+		if seg {
+			d := json.NewDecoder(r)
+			if setting == 1 {
+				d.UseNumber()
+			}
+			decode = d.Decode
+		} else {
+			d := stdjson.NewDecoder(r)
+			if setting == 1 {
+				d.UseNumber()
+			}
+			decode = d.Decode
+		}
+		for {
+			var v any
+			if typed {
+				v = new(retainedT)
+			} else {
+				v = new(any)
+			}
+			if err := decode(v); err != nil {
+				if err == io.EOF {
+					return vals, nil
+				}
+				return vals, err
+			}
+			vals = append(vals, v)
+		}
+	}
+	var got, want []any
+	var gerr, werr error
+	if pv, ps := explore.Catch(func() { got, gerr = run(true) }); pv != nil {
+		c.Fail("retained:panic:"+ps, "Decoder panics on a stream of %d bytes: %v", len(s), pv)
+		return
+	}
+	want, werr = run(false)
+	norm := func(v any) string {
+		if num, ok := v.(*any); ok {
+			if n, ok := (*num).(json.Number); ok {
+				return "Number:" + string(n)
+			}
+		}
+		return fmt.Sprintf("%#v", reflectDeref(v))
+	}
+	switch {
+	case (gerr == nil) != (werr == nil):
+		c.Fail("retained:error-differs", "stream of %d values of %s / %s: error %v, encoding/json %v", len(want), trunc(a), trunc(b), gerr, werr)
+	case len(got) != len(want):
+		c.Fail("retained:count-differs", "stream of %s / %s: %d values, encoding/json %d", trunc(a), trunc(b), len(got), len(want))
+	default:
+		for i := range got {
+			if g, w := norm(got[i]), norm(want[i]); g != w {
+				c.Fail("retained:value-changed-after-later-reads", "value %d of a stream of %d (%s / %s, typed=%v): after the whole stream was read it is %s, encoding/json has %s", i, len(got), trunc(a), trunc(b), typed, trunc(g), trunc(w))
+				break
+			}
+		}
+	}
+	c.Inner(int64(len(got)))
+	c.NontrivialStr("retained", a, b, fmt.Sprint(setting, chunks, typed))
+	c.Outcome(fmt.Sprintf("retained typed=%v", typed))
+	if c.WantSample() || c.Failed() {
+		c.Case(map[string]any{"value_a": a, "value_b": b, "values": len(got), "stream_len": len(s), "typed": typed})
+	}
+}
+
+func reflectDeref(v any) any {
+	switch x := v.(type) {
+	case *any:
+		return *x
+	case *retainedT:
+		return *x
+	}
+	return v
+}
+
 func Spec() *explore.Spec {
 	return &explore.Spec{
 		ID: "C11",
@@ -453,6 +559,7 @@ func Spec() *explore.Spec {
 			{Name: "small-streams", ShardDepth: 3, Body: smallStreams, Doc: "streams of 1-2 (quick) / 1-3 (thorough) values (10 value forms incl. unterminated / truncated ones) x 4 separators, up to 10 bytes (quick) / 12 bytes (thorough): every prefix delivered, in every chunking (all compositions), with the terminal error {EOF, custom, io.ErrUnexpectedEOF} delivered alone or with the last bytes, zero-length reads interleaved, x {plain, UseNumber, DisallowUnknownFields}"},
 			{Name: "straddle", ShardDepth: 2, Body: straddle, Doc: "11 token kinds placed so that every split point of the token falls on every buffer / refill boundary (4096, 8192, 32768, 36864, 65536, 131072), after white space / a long string / a long array, followed by nothing / a value / white space and a value; full reads, single-byte reads at the boundary, 4096-byte reads, errors and truncations at the boundary"},
 			{Name: "big-values", ShardDepth: 2, Body: bigValues, Doc: "sequences of 1-2 values of sizes around the 4 KiB read quantum and the 32 KiB buffer (strings, arrays, white space runs) x 6 chunkings x error positions"},
+			{Name: "retained-values", ShardDepth: 2, Body: retained, Doc: "streams of ~70 KB alternating two of 10 value forms (ASCII, non-ASCII and escaped strings, numbers, objects, arrays) x {plain, UseNumber} x 3 chunkings x {any, struct} targets, every value retained: after the whole stream has been read each value equals what encoding/json delivered (the read buffer was refilled and moved several times in between)"},
 			{Name: "parse-remainder", ShardDepth: 2, Body: parseRemainder, Doc: "Parse returns exactly the bytes after the first value and its trailing white space: 9 documents x 12 suffixes x 3 leading white space forms x 3 targets"},
 		},
 		Rule: "every delivery schedule of the bounded sets; distinct non-trivial = distinct streams / placements",
